@@ -51,6 +51,8 @@ type desc struct {
 
 var codings = []string{"gzip", "deflate", "br", "zstd"}
 
+const zstdBlock = 128 << 10 // klauspost zstd encoder block
+
 func codingIndex(c string) int {
 	for i, x := range codings {
 		if x == c {
@@ -193,6 +195,10 @@ func runHandler(d desc) hlib.Case {
 	c.Coq = hlib.App("CHandler", hlib.N(uint64(d.Kind)), hlib.Z(int64(d.BL)), hlib.Z(int64(d.OL)), bsList(ae), bs([]byte(d.CT)), bs([]byte(d.PreCE)),
 		bsList(varyIn), hlib.Bool(d.Streamed), hlib.List(chunks), bs(ce), bsList(vary), hlib.Bool(oErr), hlib.Bool(decoded))
 	// (the former vary-substring finding, repaired in f11ef83: `Vary: X-Accept-Encoding` inputs stay in the generator)
+	// known finding class: a streamed body of more than one zstd block coded with zstd
+	if d.Streamed && string(ce) == "zstd" && d.PreCE == "" && total > zstdBlock {
+		c.Key = "zstd-stackless-async-write"
+	}
 	c.Sig = fmt.Sprintf("handler:k%d:ce=%s:pre=%s:s%v:sz%s:v%d:ct%v", d.Kind, ce, d.PreCE, d.Streamed, sizeClass(total), len(vary), d.CT != "")
 	if total > 1<<16 {
 		sum := sha256.Sum256(body)
@@ -246,6 +252,9 @@ func runCodec(d desc) hlib.Case {
 	c := hlib.Case{Kind: "codec-" + d.Coding, Size: d.SrcLen}
 	c.Coq = hlib.App("CCodec", hlib.N(uint64(codingIndex(d.Coding))), hlib.Z(int64(d.Level)), hlib.N(uint64(d.Path)), hlib.Z(int64(d.DstLen)), hlib.Z(int64(d.SrcLen)),
 		hlib.Bool(err != nil), hlib.Bool(prefix), hlib.Bool(decoded))
+	if d.Coding == "zstd" && d.Path == 2 && d.SrcLen > zstdBlock {
+		c.Key = "zstd-stackless-async-write"
+	}
 	c.Sig = fmt.Sprintf("codec:%s:l%d:p%d:%s:d%v", d.Coding, d.Level, d.Path, sizeClass(d.SrcLen), d.DstLen > 0)
 	return c
 }
@@ -368,7 +377,7 @@ func genAE(r *rand.Rand) []hlib.B {
 var cts = []string{"", "", "text/html", "text/plain; charset=utf-8", "application/json", "image/png", "image/svg+xml", "image/x-icon", "font/woff2", "multipart/mixed", "video/mp4", "TEXT/HTML", "texty"}
 var preCEs = []string{"", "", "", "", "", "gzip", "identity", "br", "x-custom"}
 var varys = [][]string{nil, nil, nil, {"Accept-Encoding"}, {"accept-encoding"}, {"Origin"}, {"Origin, Accept-Encoding"}, {"Origin,Accept-Encoding"}, {"*"}, {"Origin", "Accept-Encoding"},
-	{""}, {"X-Accept-Encoding"}, {"Accept-Encoding-Policy, Origin"}, {"Origin", "X-Accept-Encoding"}}
+	{""}, {"X-Accept-Encoding"}, {"Accept-Encoding-Policy, Origin"}, {"Origin", "X-Accept-Encoding"}, {"Origin,\tAccept-Encoding\t"}, {"Origin,\tAccept-Encodings"}, {" ACCEPT-ENCODING ,x"}}
 
 func genSize(r *rand.Rand, thorough bool) int {
 	switch r.Intn(12) {
@@ -396,7 +405,11 @@ func genHandler(r *rand.Rand) desc {
 	d := desc{T: "handler", Kind: r.Intn(3), BL: r.Intn(21) - 5, OL: r.Intn(21) - 5, AE: genAE(r), CT: hlib.Pick(r, cts), PreCE: hlib.Pick(r, preCEs),
 		Vary: hlib.Pick(r, varys), Seed: r.Int63()}
 	total := genSize(r, thoroughRun)
-	if r.Intn(3) == 0 {
+	if r.Intn(40) == 0 {
+		total = 200000 + r.Intn(4<<20)
+		d.BL, d.OL = r.Intn(7), r.Intn(7) // keep brotli/gzip cheap on MiB bodies
+	}
+	if r.Intn(3) == 0 || total > 1<<20 {
 		d.Streamed = true
 		n := 1 + r.Intn(3)
 		rest := total
@@ -419,6 +432,9 @@ func genCodec(r *rand.Rand) desc {
 	d := desc{T: "codec", Coding: hlib.Pick(r, codings), Level: r.Intn(21) - 5, Path: r.Intn(3), Seed: r.Int63(), SrcLen: genSize(r, thoroughRun)}
 	if r.Intn(2) == 0 {
 		d.DstLen = r.Intn(64)
+	}
+	if d.Path == 2 && r.Intn(8) == 0 { // the stackless writer with several encoder blocks
+		d.SrcLen = 200000 + r.Intn(4<<20)
 	}
 	return d
 }
@@ -485,6 +501,15 @@ func corpus() []desc {
 		c = append(c, desc{T: "handler", Kind: 0, OL: 6, AE: B("gzip"), Vary: v, Chunks: []int{500}, Seed: 14})
 		c = append(c, desc{T: "handler", Kind: 0, OL: 6, AE: B("zstd"), Vary: v, Chunks: []int{100, 0, 500}, Streamed: true, Seed: 15})
 	}
+	// several encoder blocks through the stackless writer (zstd-stackless-async-write witnesses, and the other codings)
+	for i, k := range codings {
+		c = append(c, desc{T: "codec", Coding: k, Level: 3, Path: 2, SrcLen: 4 << 20, Seed: int64(20 + i)})
+		c = append(c, desc{T: "handler", Kind: 1, BL: 1, OL: 1, AE: B(k), CT: "text/plain", Chunks: []int{1 << 20, 3 << 20}, Streamed: true, Seed: int64(30 + i)})
+	}
+	c = append(c, desc{T: "codec", Coding: "zstd", Level: 1, Path: 2, SrcLen: 4 << 20, Seed: 41}, desc{T: "codec", Coding: "zstd", Level: 4, Path: 2, SrcLen: 3 << 20, Seed: 42},
+		desc{T: "codec", Coding: "zstd", Level: 2, Path: 2, SrcLen: zstdBlock, Seed: 43}, desc{T: "codec", Coding: "zstd", Level: 2, Path: 1, SrcLen: 4 << 20, Seed: 44},
+		desc{T: "handler", Kind: 0, OL: 2, AE: B("zstd"), Chunks: []int{4 << 20}, Streamed: true, Seed: 45},
+		desc{T: "handler", Kind: 0, OL: 2, AE: B("zstd"), Chunks: []int{4 << 20}, Seed: 46})
 	// codecs: every coding at every level -5..15, every path, empty and small inputs
 	for _, k := range codings {
 		for lvl := -5; lvl <= 15; lvl++ {
@@ -506,7 +531,7 @@ func main() {
 		if a == "-n" && i+1 < len(os.Args) {
 			var n int
 			fmt.Sscan(os.Args[i+1], &n)
-			thoroughRun = n >= 5000
+			thoroughRun = n >= 20000
 		}
 	}
 	hlib.Main(hlib.Prop[desc]{
